@@ -482,7 +482,22 @@ fn gen_stmt(r: &mut Prng, name: &str) -> Stmt {
         p.attrs = attrs;
         p
     };
-    match r.below(12) {
+    match r.below(13) {
+        12 => {
+            // an otherwise eligible statement whose comment merely contains the marker (a defused
+            // or quoted annotation, a look-alike keyword): not of the form 'bgpfu-fltr: <expression>'
+            let c = match r.below(7) {
+                0 => format!("/* DISABLED bgpfu-fltr: {expr} */"),
+                1 => format!("/* old-bgpfu-fltr: {expr} */"),
+                2 => format!("was generated with bgpfu-fltr: {expr}"),
+                3 => format!("/* x bgpfu-fltr: {expr} */"),
+                4 => format!("/* #bgpfu-fltr: {expr} */"),
+                5 => format!("/* bgpfu-fltr-off: {expr} */"),
+                _ => format!("/* nobgpfu-fltr:{expr} */"),
+            };
+            let active = match r.below(3) { 0 => None, _ => Some("true") };
+            Stmt { node: reject_body(with_attrs(r, Some(c), active)), selected: None, kind: "marker-not-at-start-of-comment", dup_xmlns: false }
+        }
         0 | 1 | 2 => {
             let c = decorate(r, expr);
             let active = match r.below(3) { 0 => None, _ => Some("true") };
